@@ -145,3 +145,9 @@ func vpPerm(n int) []int {
 // (names of different byte lengths; some hold multi-byte UTF-8, one a backslash: lengths are byte
 // lengths of the raw names, not character counts and not lengths of an escaped rendering)
 var vpEntryNames = [4]string{"\u00e9", "b\\b", "c\u00e9c", "d\u65e5dd"}
+
+// VP_MkRefRoot builds a reference root for harnesses of other packages (the
+// fields of RefRoot are unexported).
+func VP_MkRefRoot(refname string, oid git.OID, walk bool) RefRoot {
+	return RefRoot{ref: git.Reference{Refname: refname, ObjectType: "commit", OID: oid}, walk: walk, groups: []RefGroupSymbol{""}}
+}
